@@ -185,9 +185,23 @@ def run(ctx: Ctx, rs: RuleSet, tier: str):
     raise AnalysisError('_buildable_flatten no longer builds the metadata')
   for field, src_attr in (('argument_tags', '__argument_tags__'),
                           ('argument_history', '__argument_history__')):
-    v = kwarg(md_call, field)
+    v = kwarg(md_call, field) or (ctx.bound_args(md_call, ff) or {}).get(field)
     comp = comps.get(v.id) if isinstance(v, ast.Name) else (
         v if isinstance(v, ast.DictComp) else None)
+    if comp is None and v is not None:
+      # dict((k, w(x)) for k, x in src.items()) is the same comprehension
+      d_ = roles.deref(ff, v) if isinstance(v, ast.Name) else v
+      if isinstance(d_, ast.DictComp):
+        comp = d_
+      elif isinstance(d_, ast.Call) and isinstance(
+          d_.func, ast.Name) and d_.func.id == 'dict' and len(
+              d_.args) == 1 and isinstance(
+                  d_.args[0], ast.GeneratorExp) and isinstance(
+                      d_.args[0].elt, ast.Tuple) and len(
+                          d_.args[0].elt.elts) == 2:
+        comp = ast.DictComp(key=d_.args[0].elt.elts[0],
+                            value=d_.args[0].elt.elts[1],
+                            generators=d_.args[0].generators)
     w = comp_value_wrapper(comp) if comp is not None else None
     src_ok = comp is not None and src_attr in unparse(comp.generators[0].iter)
     rs.check(w in IMMUTABLE_SNAPSHOT and src_ok, rule,
@@ -199,7 +213,8 @@ def run(ctx: Ctx, rs: RuleSet, tier: str):
              'per-key containers of the source would be shared with '
              'traversal metadata and every copy made from it',
              ctx.loc(ff, md_call))
-  v = kwarg(md_call, 'fn_or_cls')
+  v = kwarg(md_call, 'fn_or_cls') or (ctx.bound_args(md_call, ff) or {}).get(
+      'fn_or_cls')
   rs.check(v is not None and unparse(v).endswith('.__fn_or_cls__'), rule,
            f'{ff.qualname}:fn_or_cls', 'callable taken from the source',
            ctx.loc(ff, md_call), nontrivial=False)
